@@ -73,13 +73,19 @@ def _classify_exc(e):
     return 'other'
 
 
+_confirmations = {'n': 0}
+
+
 def guarded(fn):
-    """Call fn() -> (outcome, value, exception type name).  A RecursionError under the lowered limit is only
-    believed after it reproduces under the normal limit."""
+    """Call fn() -> (outcome, value, exception type name).  A RecursionError under the lowered limit is confirmed
+    under the interpreter's normal limit (the first 200 of a process and every 16th after that: a confirmation
+    costs a 1000-deep recursion)."""
     try:
         return 'value', fn(), ''
     except RecursionError:
-        pass
+        _confirmations['n'] += 1
+        if _confirmations['n'] > 200 and _confirmations['n'] % 16:
+            return 'other', None, 'RecursionError'
     except Livelock as e:
         return 'hang', None, 'Livelock'
     except BaseException as e:   # noqa
@@ -122,8 +128,8 @@ def components(info):
             'user': cps(info.username or ''), 'pass': cps(info.password or '')}
 
 
-def run_case(text, enc='utf-8', vk='base', joins=True):
-    """Everything C10/C11 observe about one input."""
+def run_case(text, enc='utf-8', vk='base', joins=True, full=True):
+    """Everything C10/C11 observe about one input (full=False: only what C10 looks at)."""
     rec = {'ref': False, 'in': cps(text), 'enc': enc, 'vk': vk,
            'oc': 'none', 'exc': '', 'uoc': 'none', 'net': False, 'url': [],
            'oc2': 'none', 'url2': [], 'acc': 'none', 'accfail': [], 'log': 'none', 'join': 'none', 'joinfail': []}
@@ -132,7 +138,7 @@ def run_case(text, enc='utf-8', vk='base', joins=True):
     signal.setitimer(signal.ITIMER_VIRTUAL, WATCHDOG_S)
     sys.setrecursionlimit(LOW_RECURSION)
     try:
-        _run_case(rec, text, enc, joins)
+        _run_case(rec, text, enc, joins, full)
     except Livelock:
         # the watchdog fired between guarded calls: attribute it to whatever was not finished
         for k in ('oc', 'uoc', 'acc', 'log', 'join'):
@@ -146,7 +152,7 @@ def run_case(text, enc='utf-8', vk='base', joins=True):
     return rec
 
 
-def _run_case(rec, text, enc, joins):
+def _run_case(rec, text, enc, joins, full):
     oc, info, exc = guarded(lambda: URLInfo.parse(text, encoding=enc))
     rec['oc'], rec['exc'] = oc, exc
     if oc == 'value':
@@ -154,9 +160,10 @@ def _run_case(rec, text, enc, joins):
         rec['uoc'] = uoc
         if uoc != 'value':
             rec['exc'] = uexc
-        fails = read_accessors(info)
-        rec['acc'] = 'ok' if not fails else ('hang' if any(f[2] == 'hang' for f in fails) else 'raise')
-        rec['accfail'] = [[f[0], f[1]] for f in fails]
+        if full:
+            fails = read_accessors(info)
+            rec['acc'] = 'ok' if not fails else ('hang' if any(f[2] == 'hang' for f in fails) else 'raise')
+            rec['accfail'] = [[f[0], f[1]] for f in fails]
         if uoc == 'value':
             rec['net'] = info.scheme in wpull.url.RELATIVE_SCHEME_DEFAULT_PORTS
             rec['url'] = cps(url)
@@ -171,6 +178,8 @@ def _run_case(rec, text, enc, joins):
                     c2 = components(info2)
                     for k in ('sch', 'hn', 'port', 'path', 'query'):
                         rec[k + '2'] = c2[k]
+    if not full:
+        return
     # the logging variant used on scraped links never raises
     loc, linfo, lexc = guarded(lambda: parse_url_or_log(text, encoding=enc))
     rec['log'] = 'ok' if loc == 'value' else ('hang' if loc == 'hang' else 'raise')
@@ -198,13 +207,13 @@ def ref_of(rec):
     return {'ref': True, 'oc': rec['oc'], 'uoc': rec['uoc'], 'net': rec['net'], 'url': rec['url']}
 
 
-def run_family(fam, joins=True):
+def run_family(fam, joins=True, full=True):
     """fam: dict(cl, tags, enc, m=[[kind, cps], ...]) as printed by UrlNormGen.  Returns the member records."""
     out = []
     for kind, cp in fam['m']:
-        out.append(run_case(text_of(cp), fam['enc'], kind, joins))
+        out.append(run_case(text_of(cp), fam['enc'], kind, joins, full))
     return out
 
 
-def run_families(fams, joins=True):
-    return [run_family(f, joins) for f in fams]
+def run_families(fams, joins=True, full=True):
+    return [run_family(f, joins, full) for f in fams]
